@@ -27,8 +27,8 @@ from ..core import Sub, fail, enc, jkey, scale
 from .. import heapfp
 
 BOUNDS = {
-    'quick': 'operation alphabet: parse(f) for 28 residue-leaving formulas, set_variable x 2 values, set_function x 2 bodies, '
-             'on/off of a cell listener, the host changing every cell and range value (35 operations); all histories of length <= 2 x 23 probes, debug off and on, each '
+    'quick': 'operation alphabet: parse(f) for 30 residue-leaving formulas, set_variable x 2 values, set_function x 2 bodies, '
+             'on/off of a cell listener, the host changing every cell and range value (37 operations); all histories of length <= 2 x 23 probes, debug off and on, each '
              'history in a pristine process (fork server) against solo outcomes from pristine processes; closure '
              'search over heap fingerprints to a fixpoint (cap depth 5); repetition ladder 1,2,4,...,64 per formula for live '
              'traceback/frame counts; host-list immutability for every documented function x arity <= 2 x list-valued '
@@ -108,7 +108,7 @@ FORMULAS = ['SUM(1,2)+va', 'va*2', '1/0', 'nosuchvar+1', 'SUM(1/0,1)', 'MAX(NA()
             'ABS(TRUE)&"|"&SUM("1")&"|"&INDEX({"a","b"},TRUE)', 'ABS(1.0)&"|"&SUM(1.0)&"|"&(0.0+FALSE)',
             'B2-A1+SUM(A1:B2)', 'SUM(B2:A1)+SUM($C$3:A2)', 'B9&"|"&ISBLANK(D8)', 'A1+C1',
             'IFERROR(SUM(1/0),5)&ISERROR(MAX(NA()))&IF(ISERROR(SUM(1/0)),"n/a",1)',
-            'IFERROR(FBOOM(2),A1)', 'CONCATENATE(1/0,"x")', 'A1:B2', 'A1*B2+nosuchvar', 'SUM(A1:B2)+B2+(']
+            'IFERROR(FBOOM(2),A1)', 'CONCATENATE(1/0,"x")', 'A1:B2', 'A1*B2+nosuchvar', 'SUM(A1:B2)+B2+(', 'IFERROR(FNOARG(1),5)&ISERROR(FNOARG(2))', 'FNOARG(3)+1']
 NPROBE = 23      # the first 23 are also probes
 NEEDS_ZYGOTE = True
 
@@ -119,6 +119,14 @@ def boom(*a):
 
 def syn(*a):
     raise SyntaxError('syn')
+
+
+def noarg(*a):
+    if a and a[0] == 2:
+        assert False            # AssertionError()
+    if a and a[0] == 3:
+        next(iter(()))          # StopIteration()
+    raise ValueError()          # an exception without arguments
 
 
 FN_BODIES = [lambda x: x + 1, lambda x: x * 10]
@@ -163,6 +171,7 @@ class World(object):
         GEN['g'] = 0
         self.p.set_function('FBOOM', boom)
         self.p.set_function('FSYN', syn)
+        self.p.set_function('FNOARG', noarg)
         self.p.on('callRangeValue', range_listener)
         self.apply(['setvar', 0])
         self.apply(['setfn', 0])
@@ -528,7 +537,8 @@ class Retention(Sub):
 
 def host_lists(env=None):
     out = [[3, 1, 2], [[3, 1], [2, 'b']], [], ['b', 'a', None], [2.5, [1, [0]]], [[5, 4, 3, 2]],
-           [[1, 2, 3], [4]]]                                   # ragged rows
+           [[1, 2, 3], [4]],                                   # ragged rows
+           [[1, 2]] * 3]                                       # three rows that are ONE list object (a host filling a block)
     if env is not None:
         out.append([1, env.err.XLError('#N/A'), 3])            # an error object of the host's own making among the items
     else:
@@ -636,7 +646,8 @@ OPFORMS = ['xa+xb', 'xb-xa', 'xa*2', '1/xa', 'xa&"x"', 'xa=xb', 'xa<xb', '-xa', 
            'LARGE(xa,1)', 'MEDIAN(xa)', 'INDEX(xa,1)', 'CONCATENATE(xa,xb)', 'TEXTJOIN(",",TRUE,xa,xb)', 'MATCH(2,xa,0)',
            'AND(xa)', 'xa', 'IF(TRUE,xa,xb)', 'IFERROR(xa,xb)', 'CHOOSE(1,xa,xb)', 'SUMIF(xa,">1")', 'MAXIFS(xa,xa,">0")',
            'AVERAGEIF(xa,">0",xa)', 'SLOPE(xa,xb)', 'MODE(xa)', 'AVEDEV(xa)', 'SWITCH(1,1,xa,xb)',
-           'INDEX(xa,2,3)', 'INDEX(xa,2,2)', 'INDEX(xa,1,4)', 'xa*xb', 'xa/xb', 'xb+xa', 'MATCH(2,xa,1)', 'xa&xb', 'SUMIFS(xa,xa,">0")']
+           'INDEX(xa,2,3)', 'INDEX(xa,2,2)', 'INDEX(xa,1,4)', 'xa*xb', 'xa/xb', 'xb+xa', 'MATCH(2,xa,1)', 'xa&xb', 'SUMIFS(xa,xa,">0")',
+           'SUM(xa,xa)', 'CONCATENATE(xa,xa)', 'AND(xa,xa)', 'TEXTJOIN(",",FALSE,xa,xb,xa)', 'COUNT(xa,xb,xa)', 'MAX(xa,xa)+MIN(xa,xa)']
 
 
 OTHER = 'COUNT({9,8},{7;6})&CONCATENATE("q",{"r","s"})&LARGE({5,6},1)&AVEDEV(1,2,4)'
